@@ -32,8 +32,8 @@ type Step struct {
 	// Burst: the next step follows at once: no observation, and no wait for the notification
 	// goroutines, between this step and the next
 	Burst bool
-	NIs  []string
-	NI   string
+	NIs   []string
+	NI    string
 	// Gap, when set on an add/del step, is a second add/del step that another goroutine tries to
 	// execute while this one is between its table change and its bookkeeping (the point where
 	// the post-change hook runs). With the RIB's operations serialised it simply runs afterwards.
@@ -47,8 +47,8 @@ type RibCfg struct {
 	// all: a plain keyed store). The model does not describe that configuration; what is judged
 	// there is what needs no model: contents = fold of the acknowledgements, notifications = contents
 	NoCheck bool
-	Pools    *Pools
-	Steps    int
+	Pools   *Pools
+	Steps   int
 	// weights
 	WFlush, WAddNI, WHook int
 	DupNH                 bool // allow a group to list a next-hop twice
